@@ -383,6 +383,29 @@ func TestC15Send(t *testing.T) {
 						c.Violation("C15", "second-send-attempt-count", "second send on the same network: all attempts fail, expected exactly %d NewStream calls, saw %d (first send: mode %d, err %v)", eff, n2calls, mode, res.err)
 					}
 				}
+				// ... and what it delivers is its own message, once, nothing else (nothing left over from the
+				// first send, which may have failed half-way through its write)
+				sent2 := viewMsg(b2.m)
+				nmsg, nerr2 := 0, 0
+				for _, g := range r2.snapshot() {
+					if g.handler == "error" {
+						nerr2++
+						continue
+					}
+					nmsg++
+					if g.view != sent2 {
+						c.Violation("C15", "second-send-delivered-foreign-message", "the peer received a message that the second send did not carry (first send: mode %d, err %v):\n sent %+v\n got  %+v", mode, res.err, sent2, g.view)
+					}
+				}
+				if err2 == nil && nmsg != 1 {
+					c.Violation("C15", fmt.Sprintf("second-send-delivered-%d-times", nmsg), "second send reported success, the peer's handlers were called %d times (first send: mode %d, err %v)", nmsg, mode, res.err)
+				}
+				if err2 == nil && nerr2 != 0 {
+					c.Violation("C15", "second-send-stream-malformed", "second send reported success, yet the peer found its stream malformed (%d errors; first send: mode %d, err %v)", nerr2, mode, res.err)
+				}
+				if n3 := len(r3.snapshot()); n3 != 0 {
+					c.Violation("C15", "delivered-to-wrong-peer", "a bystander peer received %d messages", n3)
+				}
 				c.Count("second_sends", 1)
 			default:
 				c.Violation("C15", "second-send-never-returned", "second SendMessage on the same network still running after 30 virtual minutes")
@@ -537,6 +560,89 @@ func TestC15Inbound(t *testing.T) {
 		s.Reset()
 		h1.Close()
 		h2.Close()
+		mn.Close()
+		time.Sleep(time.Minute)
+	})
+}
+
+// TestC15Reuse: sends follow one another closely on one network object, some of them failing in the
+// middle of their write (the stream dies after k bytes). A failed send is reported and leaves nothing
+// behind: the next message - to another peer - arrives alone, once, intact, and the peer of the failed
+// send never sees a well-formed message it was not successfully sent.
+func TestC15Reuse(t *testing.T) {
+	vf.Run(t, "C15Reuse", vf.Opts{Bubble: true, DefaultN: 8}, func(c *vf.Case) {
+		r := c.Rng
+		mn := mocknet.New()
+		h1, err := mn.GenPeer()
+		if err != nil {
+			panic(err)
+		}
+		h2, _ := mn.GenPeer()
+		h3, _ := mn.GenPeer()
+		mn.LinkAll()
+		fh := &flakyHost{Host: h1, t0: time.Now(), stallNth: -1, writeErr: -1}
+		n1 := network.NewFromLibp2pHost(fh, network.RetryParameters(100*time.Millisecond, time.Second, 2, 1), network.SendMessageParameters(time.Hour, 10*time.Second))
+		n2 := network.NewFromLibp2pHost(h2)
+		n3 := network.NewFromLibp2pHost(h3)
+		r2, r3 := &recReceiver{}, &recReceiver{}
+		n2.SetDelegate(r2)
+		n3.SetDelegate(r3)
+		rounds := 12 + r.Intn(12)
+		for i := 0; i < rounds && c.Violations() == 0; i++ {
+			a, b := buildMsg(r, r.Intn(12)), buildMsg(r, r.Intn(12))
+			failAt := r.Intn(60)
+			fh.mu.Lock()
+			fh.writeErr = failAt
+			fh.mu.Unlock()
+			errA := n1.SendMessage(context.Background(), h2.ID(), a.m) // dies after failAt bytes (if the message is longer)
+			fh.mu.Lock()
+			fh.writeErr = -1
+			fh.mu.Unlock()
+			errB := n1.SendMessage(context.Background(), h3.ID(), b.m)
+			time.Sleep(time.Minute)
+			synctest.Wait()
+			var abuf bytes.Buffer
+			a.m.ToNet(&abuf)
+			if abuf.Len() > failAt && errA == nil {
+				c.Violation("C15", "write-failure-not-reported", "the stream died after %d of %d bytes, SendMessage returned nil", failAt, abuf.Len())
+			}
+			if errA != nil {
+				c.Count("failed_sends_followed_by_another", 1)
+				for _, g := range r2.snapshot() {
+					if g.handler != "error" {
+						c.Violation("C15", "delivered-despite-error", "the send to this peer failed (%v), yet its %s handler was called", errA, g.handler)
+					}
+				}
+			}
+			if errB != nil {
+				c.Violation("C15", "send-after-failed-send-errors", "the send that followed a failed one returned %v", errB)
+			}
+			wantB := viewMsg(b.m)
+			nmsg := 0
+			for _, g := range r3.snapshot() {
+				if g.handler == "error" {
+					c.Violation("C15", "send-after-failed-send-garbled", "the peer of the send that followed a failed one found its stream malformed: %s", g.err)
+					continue
+				}
+				nmsg++
+				if g.view != wantB {
+					c.Violation("C15", "send-after-failed-send-delivered-foreign-message", "the peer received a message the send did not carry (round %d, first send died after %d bytes):\n sent %+v\n got  %+v", i, failAt, wantB, g.view)
+				}
+			}
+			if errB == nil && nmsg != 1 {
+				c.Violation("C15", fmt.Sprintf("send-after-failed-send-delivered-%d-times", nmsg), "the send that followed a failed one reported success; the peer's handlers were called %d times", nmsg)
+			}
+			r2.reset()
+			r3.reset()
+		}
+		c.Mark("rounds=%d", rounds/4)
+		c.NonTrivial()
+		if c.Index < 1 {
+			c.Sample(map[string]any{"engine": "back-to-back sends, every first one dying mid-write", "rounds": rounds})
+		}
+		h1.Close()
+		h2.Close()
+		h3.Close()
 		mn.Close()
 		time.Sleep(time.Minute)
 	})
